@@ -232,9 +232,9 @@ func finish(verifDir string, prop *Property, tier string, seed int, obs []*Ob, n
 	}
 	sort.Strings(ruleList)
 	cov := map[string]any{
-		"explanation": prop.Explanation,
-		"obligations": len(order),
-		"discharged":  nHold,
+		"explanation":            prop.Explanation,
+		"obligations":            len(order),
+		"discharged":             nHold,
 		"known_findings_matched": nKnown,
 		"evaluations":            len(obs),
 		"distinct_nontrivial":    len(nontrivial),
